@@ -18,6 +18,11 @@ def _facts(ctx):
         ("fs/reader/reader.go", r"\bmaxWalkDepth\s*=\s*10000\b"),
         # Open goes through the decompressors in order and validates the TOC range (model: tryDec)
         ("estargz/estargz.go", r"fOffset := positive\(int64\(len\(footer\)\) - fSize\)"),
+        # the chunk validation shared by file.ReadAt, cacheWithReader and the passthrough loops (model: chunkContains)
+        ("fs/reader/reader.go", r"return chunkSize > 0 && chunkOffset >= 0 && chunkSize <= math\.MaxInt64-chunkOffset &&\s*\n\s*chunkOffset <= pos && pos-chunkOffset < chunkSize"),
+        ("fs/reader/reader.go", r"if !chunkContains\(chunkOffset, chunkSize, offset\+int64\(nr\)\) \|\| expectedSize <= 0 \|\| expectedSize > int64\(len\(p\)-nr\)"),
+        # gzip footers refuse a negative TOC offset (model: gzipFooter / legacyFooter)
+        ("estargz/gzip.go", r"if tocOffset < 0 \{"),
         # getSource is a loop bounded by the number of entries (model: getSourceLoop)
         ("estargz/estargz.go", r"for i := 0; ent\.Type == \"hardlink\"; i\+\+ \{\s*\n\s*if i > len\(r\.m\) \{"),
     ]
@@ -96,9 +101,10 @@ def run(ctx):
             "gzip/zstd/tar/JSON decoders, bbolt and the Go allocator are trusted; their crashes are only found by the "
             "crash-isolated exploration, not excluded by proof",
             "the result of the stdlib gzip header parse (none | FEXTRA payload) is a parameter of the footer model",
-            "file.ReadAt theorem: the read range does not overflow int64, chunk offsets are >= 0, offset+size fits "
-            "int64 and the chunk size is allocatable (ChunkSane); each dropped hypothesis has a proved "
-            "counterexample that is replayed on the real code",
+            "file.ReadAt theorems: chunk sizes are allocatable (c.cs <= bound) and, for progress, the store delivers "
+            "at least one byte per answer; each of the two hypotheses has a proved counterexample "
+            "(read_alloc_unbounded / read_arith_total_full_fails, read_progress_full_fails); the first one is "
+            "replayed on the real code (known finding), the second needs a failing chunk cache",
             "a hang is 'no progress of one target for VERIF_C04_HANG_S seconds'; after a hang the same target is "
             "not run again on inputs of the same class (counted as skipped-after-hang in the statistics)",
             "registered decompressors report a non-negative FooterSize (true for the four in the repository)",
